@@ -17,6 +17,9 @@ RULE = ("tie: every filesystem event (sys.addaudithook: open with write flags, r
         "holding payload, metafiles, working directory and HOME before/after `recheck|check`, `info`, `magnet|m` (all versions, intact and "
         "trees damaged by a MISSING file / a truncated file / corruption, v1 --align metafiles whose .pad entries never exist, "
         "-q/--quiet/-v/--verbose/no flag, cwd = empty directory | the metafile's directory | the payload's parent, version requests), "
+        "`create|new|<implicit>` of payloads NAMED LIKE A METAFILE (single files and directories x.torrent, Movie.Torrent, x.TORRENT, "
+        "a.b.torrent, .torrent ...; `-o <the directory that holds the payload>/`, no -o with that directory as the working directory and "
+        "the content spelled <name> or ./<name>, and the same with another directory): exactly one NEW file, the payload unchanged; "
         "`create|new|<implicit>` (with -o file, -o dir/, without -o; pre-existing ./.torrent and dir/.torrent; existing output; the output "
         "directory, cwd and payload parent pre-populated with bystanders named like temporaries of the output: <out>.tmp <out>~ <out>.bak "
         ".<out>.swp <out>.part ... which must stay untouched), `create|new --config` (ini found through --config-path, ./torrentfile.ini "
@@ -85,6 +88,58 @@ def run_cli(sandbox, cwd, argv, n):
         ev = json.load(open(trace))
         os.remove(trace)
     return p.returncode, p.stdout.strip(), ev
+
+
+# ------------------------------------------------------------------------------------------------ create: payloads named like a metafile
+# The output name create derives is <name of the content> + ".torrent".  When the content's OWN name already ends with
+# .torrent (in any letter case) and the metafile goes to the directory that holds the content (-o <that directory>/, or no -o
+# with that directory as the working directory), the derived name must still be a NEW name: create writes exactly one new file
+# and the payload keeps its name and its bytes.
+NAMED_PAYLOADS = ["x.torrent", "Movie.Torrent", "x.TORRENT", "a.b.torrent", "ubuntu.iso.ToRrEnT", ".torrent", "torrent"]
+NAMED_VARIANTS = ["-o <payload's directory>/", "no -o, cwd = payload's directory", "no -o, cwd = payload's directory, ./<name>",
+                  "-o <another directory>/", "no -o, cwd = another directory"]
+
+
+def named_payload_case(tmp, n, spelling, version, name, is_dir, variant):
+    """one create in a fresh interpreter on a payload named `name` (a single file, or a directory when is_dir);
+       returns (input description, problem | None, audit events)"""
+    import random
+    sb = os.path.join(tmp, f"np{n}", "sandbox")
+    data_dir, wd, outdir = os.path.join(sb, "data"), os.path.join(sb, "wd"), os.path.join(sb, "out")
+    for d in (data_dir, wd, outdir, os.path.join(sb, "home")):
+        os.makedirs(d)
+    payload = os.path.join(data_dir, name)
+    rng = random.Random(f"c18-named:{name}:{is_dir}")
+    if is_dir:
+        trees.write_tree(payload, {("a.bin",): rng.randbytes(16384 + 100), ("d", "x.torrent"): rng.randbytes(300), ("d", "e"): b""})
+    else:
+        trees.write_tree(payload, {(): rng.randbytes(2 * 16384 + 77)})
+    argv = ([spelling] if spelling else []) + ["--meta-version", version, "--prog", "0", "--piece-length", "14"]
+    cwd, content, target = wd, payload, wd
+    if variant == NAMED_VARIANTS[0]:
+        argv += ["-o", data_dir + os.sep]
+        target = data_dir
+    elif variant == NAMED_VARIANTS[1]:
+        cwd, content, target = data_dir, name, data_dir
+    elif variant == NAMED_VARIANTS[2]:
+        cwd, content, target = data_dir, "." + os.sep + name, data_dir
+    elif variant == NAMED_VARIANTS[3]:
+        argv += ["-o", outdir + os.sep]
+        target = outdir
+    argv += [content]
+    before = snapshot(sb)
+    rc, out, ev = run_cli(sb, cwd, argv, f"np{n}")
+    after = snapshot(sb)
+    d = diff(before, after)
+    expect = os.path.relpath(os.path.join(target, name + ".torrent"), sb)
+    inp = {"kind": "create-payload-named-like-a-metafile", "command": spelling or "<implicit create>", "version": version,
+           "payload_name": name, "payload": "directory" if is_dir else "single file", "variant": variant, "n": n,
+           "cwd": os.path.relpath(cwd, sb), "argv": [a.replace(sb, "<sandbox>") for a in argv]}
+    problem = None
+    if rc != 0 or list(d.values()) != ["added"] or after[next(iter(d))][0] != "file":
+        problem = ({expect: "added (one new file; the payload and everything else unchanged)"},
+                   {"rc": rc, "out": out[-300:], "diff": d, "payload": os.path.relpath(payload, sb)})
+    return inp, problem, ev, (d, expect)
 
 
 def predicted_kinds():
@@ -309,6 +364,36 @@ def run(ctx, model_ok):
                            [(s, v, var) for s in ("create", "new", "") for v in ("1", "2", "3")
                             for var in ("no-out", "out-dir", "out-file", "out-existing")]):
             check_create(sp, v, var)
+
+        # ---------------------------------------------------------------- create: payloads named like a metafile
+        if ctx.tier == "thorough":
+            ncases = [(("create", "new", "")[(i + j + k) % 3], str(1 + (i + j + k) % 3), nm, is_dir, var)
+                      for i, nm in enumerate(NAMED_PAYLOADS) for j, var in enumerate(NAMED_VARIANTS)
+                      for k, is_dir in enumerate((False, True)) if not (is_dir and j in (2, 4))]
+        else:
+            k = ctx.rng.randrange(60)
+            ncases = []
+            for i, nm in enumerate(NAMED_PAYLOADS[:5]):
+                ncases.append((("create", "new", "")[(k + i) % 3], str(1 + (k + i) % 3), nm, False, NAMED_VARIANTS[(k + i) % 3]))
+            for i in range(3):      # each of the three spellings that put the metafile next to the payload, once more; a directory
+                nm = NAMED_PAYLOADS[(k + 2 * i) % 5]
+                ncases.append((("create", "new", "")[(k + i + 1) % 3], str(1 + (k + i + 1) % 3), nm, i == 2, NAMED_VARIANTS[(k + i + 1) % 3 if i < 2 else (k % 2)]))
+            ncases.append(("create", str(1 + k % 3), NAMED_PAYLOADS[k % 3], False, NAMED_VARIANTS[3 + k % 2]))
+        from concurrent.futures import ThreadPoolExecutor as _TPE
+        with _TPE(max_workers=6) as ex:          # fresh interpreters on sandboxes of their own
+            nres = list(ex.map(lambda c: named_payload_case(tmp, c[0], *c[1]), enumerate(ncases)))
+        for (sp, v, nm, is_dir, var), (inp, problem, ev, (d, expect)) in zip(ncases, nres):
+            if problem:
+                ctx.fail("create-wrote-other-than-one-file", inp, problem[0], problem[1])
+            elif d != {expect: "added"}:
+                ctx.notes.append(f"create of a payload named {nm!r} ({var}) wrote {sorted(d)} instead of {expect}")
+            tie("create", ev, inp)
+            ctx.case(key=("create-named", sp, v, nm, is_dir, var), nontrivial=True,
+                     classes=["create: payload named like a metafile", "create: payload named like a metafile, " + var,
+                              "create: payload named like a metafile (" + ("directory" if is_dir else "single file") + ")"])
+        for var in NAMED_VARIANTS[:3]:
+            if not ctx.classes.get("create: payload named like a metafile, " + var):
+                ctx.broken.append(f"no create of a payload named like a metafile ran with {var}: the run is not accepted")
 
         # ---------------------------------------------------------------- create through a configuration file
         def check_config_create(version, cfg_name, cfg, spelling, out_kind, locate, cmd="create"):
@@ -540,4 +625,15 @@ def run(ctx, model_ok):
 
 def replay(ctx, data):
     print(json.dumps(data, indent=1)[:3000])
+    inp = data.get("input") or {}
+    if inp.get("kind") == "create-payload-named-like-a-metafile":
+        # the payload is a function of its name: the case is rebuilt and run again
+        with core.Scratch("vc18r_") as tmp:
+            _, problem, _, (d, expect) = named_payload_case(tmp, 0, "" if inp["command"].startswith("<") else inp["command"],
+                                                            inp["version"], inp["payload_name"], inp["payload"] == "directory",
+                                                            inp["variant"])
+        if problem:
+            print(f"[C18 replay] VIOLATION create-wrote-other-than-one-file: expected {problem[0]} observed {problem[1]}")
+            return 1
+        print(f"[C18 replay] create wrote exactly one new file ({sorted(d)}); the payload is unchanged")
     return 0
